@@ -176,7 +176,7 @@ uint8_t igris_atou8(const char *buf, uint8_t base, char **end)
 int32_t igris_atoi32(const char *buf, uint8_t base, char **end)
 {
     uint8_t minus;
-    int32_t u;
+    uint32_t u;
 
     minus = *buf == '-';
     if (minus)
@@ -189,7 +189,7 @@ int32_t igris_atoi32(const char *buf, uint8_t base, char **end)
 int64_t igris_atoi64(const char *buf, uint8_t base, char **end)
 {
     uint8_t minus;
-    int64_t u;
+    uint64_t u;
 
     minus = *buf == '-';
     if (minus)
